@@ -14,7 +14,7 @@ from vlib import core
 
 THEOREMS = ["C05_merge_keys", "C05_select", "C05_conflicts", "C05_unused", "C05_spec", "C05_cross", "C05_cross_tree", "C05_cross_pass1", "C05_select_forms",
             "C05_static_select", "C05_static_select_level", "C05_static_other_args", "C05_unused_project",
-            "C05_old_refuted", "C05_lone_other_refuted", "C05_panic_old_refuted", "C05_accessor_current_locale"]
+            "C05_old_refuted", "C05_lone_other_refuted", "C05_panic_old_refuted", "C05_accessor_current_locale", "C05_collision_any_value"]
 PROPS = "theories/Props/C05.v"
 REGISTRY = {
     "level": "proof",
